@@ -47,7 +47,8 @@ GenInit ==
   /\ (GenMode # "c04") => /\ (IOEnv.C10_CAUTH = "*" \/ cfg.c.auth = IOEnv.C10_CAUTH)
                           /\ (IOEnv.C10_SAUTH = "*" \/ cfg.s.auth = IOEnv.C10_SAUTH)
                           /\ (IOEnv.C10_ENC = "*" \/ (cfg.c.enc = IOEnv.C10_ENC /\ cfg.s.enc = IOEnv.C10_ENC))
-  /\ (GenMode = "c04") => <<cfg.c.enc, cfg.s.enc>> \in C04EncPairs
+  /\ (GenMode = "c04") => /\ <<cfg.c.enc, cfg.s.enc>> \in C04EncPairs
+                          /\ (shape # "full") => <<cfg.c.enc, cfg.s.enc>> = <<"REQUIRED", "REQUIRED">>
   /\ relayRec = NoRelay
   /\ fresh = "none"
 
@@ -60,12 +61,12 @@ GenConfigure ==
 
 -----------------------------------------------------------------------------
 SrvStep ==
-  \/ ServerNegotiate \/ ServerSelect \/ PostAuthSend \/ ResumeReply
+  \/ ServerNegotiate \/ ServerSelect \/ PostAuthSend \/ ResumeReply \/ PreServer
   \/ RunMethod("s") \/ KeyExchange("s") \/ InstallKey("s") \/ Store("s")
   \/ AppSend("s") \/ AppRecv("s") \/ SkipOdd("s")
 CliStep ==
   \/ ClientHello \/ ClientReadServerAd \/ BitmaskOffer \/ ClientReadSelect \/ PostAuthRecv
-  \/ ResumeRequest \/ ResumeRecv
+  \/ ResumeRequest \/ ResumeRecv \/ PreClientSend \/ PreClientRecv
   \/ RunMethod("c") \/ KeyExchange("c") \/ InstallKey("c") \/ Store("c")
   \/ AppSend("c") \/ AppRecv("c") \/ SkipOdd("c")
 
@@ -86,6 +87,7 @@ RelayRecFor(a, d, p, part) ==
 
 C04Next ==
   \/ /\ pc["c"] = "config" /\ GenConfigure /\ UNCHANGED <<relayRec, fresh>>
+     /\ (shape # "full") => cfg'.c.methods = << >>     \* the other shapes do not read the policy
   \/ /\ pc["c"] # "config" /\ fresh = "none"
      /\ Sched
      /\ fresh' = NewClear
